@@ -834,7 +834,7 @@ pub fn run(args: &Args) -> Report {
     }
     for h in handles {
         if h.join().is_err() {
-            report.inconclusive.push("judge thread panicked".into());
+            report.inconclusive.push("HARNESS-PANIC: a crash judge thread panicked (its results are lost)".into());
         }
     }
     REAPER.wait();
